@@ -240,7 +240,7 @@ func runC17(w *h.W, batch int) {
 				if q.SC.Interval > 0 {
 					k += "+hist"
 				}
-				w.Held(hclass+"|"+form+"|"+k, nt)
+				w.Held(fmt.Sprintf("%s|%s|%s|s%d|r%d", hclass, form, k, len(steps), min(repeats/10, 9)), nt)
 			}
 		}
 		if st != nil {
